@@ -614,6 +614,11 @@ def execute(desc):
                     if from_src:
                         if k[0] == "cli":
                             compiled_against[k[1]] = [l["ver"] for l in libs]
+                            c_ = clients[k[1]]
+                            if c_.get("_local"):
+                                # a local require is resolved when the client is COMPILED (also after a mere touch or a
+                                # lost pyc): the names its run-time call asks for are the library's exports as of now
+                                c_["_local_all"] = list(exported(libs[c_["_local"][0]]))
                         pyc_valid[k] = (armed is None) and not sys.dont_write_bytecode
                         if pyc_valid[k] and not W.pyc_exists(names[k]):
                             viols.append({"clause": "pyc_written", "sig": "missing_after_source_import", "detail": {"op": oi, "module": k}})
